@@ -61,6 +61,10 @@ func init() {
 			{recv: "BucketDescriptor", name: "unmarshalEntry"},
 			{recv: "Bucket", name: "loadEntry"},
 			{name: "bucketOffset"},
+			{name: "putUintLe"},
+			{recv: "BucketHeader", name: "Load"},
+			{recv: "BucketHeader", name: "Store"},
+			{recv: "BucketHeader", name: "readFrom"},
 		},
 		externs: []string{"io.SectionReader.ReadAt:out0", "io.ReaderAt.ReadAt:out0"}, hoist: true})
 }
